@@ -224,6 +224,7 @@ UNIT['obligations'].update({
   'hmm.iter.inc.no_skip': dict(deciding=True, text='++ leaves out no unmarked node between the old and the new position'),
   'hmm.iter.inc.frame': dict(deciding=True, text='++ changes nothing except unlinking (and retiring once) marked nodes on its way'),
   'hmm.iter.erase.exact': dict(deciding=True, text='erase(iterator) marks exactly the referenced node, unlinks and retires it once (or leaves that to whoever unlinked it), returns an iterator to the following element'),
+  'hmm.guard.raw_pinned': dict(deciding=True, text='a guard_ptr built from a raw pointer is only legitimate while the node is pinned: null, the own unpublished node, or the frozen successor of a marked node that this operation has not yet spliced out (erase(iterator): the successor guard must be taken before the unlink CAS, otherwise the returned iterator may refer to reclaimed memory) [SEQ and INT]'),
   'hmm.iter.begin.first': dict(deciding=True, text='begin() designates the first linked node of the first non-empty bucket, end() designates nothing'),
 })
 import re as _re, os as _os
